@@ -1,0 +1,17 @@
+//go:build verif
+// +build verif
+
+package hbstream
+
+import "github.com/pingcap/kvproto/pkg/pdpb"
+
+// VerifTryRecv does a non-blocking receive from the internal message channel; only meaningful
+// when the streams were created with needRun=false (verification hook).
+func (s *HeartbeatStreams) VerifTryRecv() *pdpb.RegionHeartbeatResponse {
+	select {
+	case m := <-s.msgCh:
+		return m
+	default:
+		return nil
+	}
+}
